@@ -63,6 +63,14 @@ def gen(rng, tier):
                     nodes[f"{inst}.d"][1] = [rng.choice(sigs)]
             else:
                 nodes[f"{inst}.{p}"][1] = [p + "_in"]
+    if rng.random() < 0.15:
+        # a flop whose Q pin is not connected to anything (an unobserved state bit)
+        inst = "dead0"
+        if inst not in net["bbs"] and not any(n.startswith(inst) for n in nodes):
+            net["bbs"][inst] = [tname, list(pins_in), ["q"]]
+            for p in pins_in:
+                nodes[f"{inst}.{p}"] = ["bb_input", [rng.choice(sigs)] if p == "d" else [p + "_in"], False]
+            nodes[f"{inst}.q"] = ["bb_output", [], False]
     # flop feeding flop directly
     insts = list(net["bbs"])
     if len(insts) >= 2 and rng.random() < 0.4:
@@ -213,7 +221,7 @@ def run(case, ctx):
     for inst in insts:
         l = fo[f"{inst}.{q}"]
         if not l:
-            raise Skip("unloaded q pin")
+            ctx.probe("unconnected_q_pin")   # its step-0 state input is still one of the free inputs
         if not nodes[f"{inst}.{d}"][1]:
             raise Skip("undriven d pin")
         drv = nodes[f"{inst}.{d}"][1][0]
